@@ -98,6 +98,15 @@ func session(r *hx.Run, rng *gen.Rng, id string, sub uint32, disableMouse bool, 
 		return 0
 	}
 	closed := false
+	// a cursor request made after the last Render and never rendered (shutdown arrives first)
+	pending := func() {
+		if rng.Chance(1, 2) {
+			ccol, crow, cstyle = rng.Intn(12), rng.Intn(5), rng.Intn(7)
+			vx.ShowCursor(ccol, crow, vaxis.CursorStyle(cstyle))
+			cnv = true
+			r.Count("pending-showcursor-at-shutdown")
+		}
+	}
 	doClose := func() {
 		ok := within(3*time.Second, func() { vx.Close() })
 		if !ok {
@@ -115,6 +124,7 @@ func session(r *hx.Run, rng *gen.Rng, id string, sub uint32, disableMouse bool, 
 	case 1:
 		frames(1 + rng.Intn(3))
 		for k := rng.Intn(3); k >= 0; k-- {
+			pending()
 			if !within(3*time.Second, func() { vx.Suspend() }) {
 				r.Emit(fmt.Sprintf("suspend %d %d %d %d %d", bi(cnv), bi(clv), crow, ccol, cstyle), "hang")
 				return nil
@@ -127,8 +137,25 @@ func session(r *hx.Run, rng *gen.Rng, id string, sub uint32, disableMouse bool, 
 			r.Emit("resume", hx.Hex(string(fc.Take())))
 			frames(rng.Intn(3))
 		}
+		pending()
 		doClose()
 		doClose() // a second Close is harmless
+	case 3:
+		// the application exits while suspended: Suspend, then Close without Resume
+		frames(1)
+		if !within(3*time.Second, func() { vx.Suspend() }) {
+			r.Emit(fmt.Sprintf("suspend %d %d %d %d %d", bi(cnv), bi(clv), crow, ccol, cstyle), "hang")
+			return nil
+		}
+		r.Emit(fmt.Sprintf("suspend %d %d %d %d %d", bi(cnv), bi(clv), crow, ccol, cstyle), hx.Hex(string(fc.Take())))
+		cnv = false
+		ok := within(1500*time.Millisecond, func() { vx.Close() })
+		if !ok {
+			r.Emit("closesuspended", "hang")
+			r.Count("close-while-suspended-hang")
+			return nil
+		}
+		r.Emit("closesuspended", hx.Hex(string(fc.Take())))
 	case 2:
 		frames(1 + rng.Intn(3))
 		// Close triggered by a termination signal: runs on the input goroutine
@@ -160,7 +187,10 @@ func run(r *hx.Run) error {
 			if !r.Thorough && (sub+dm)%4 != int(r.Seed%4) && sub != 0 && sub != subs-1 {
 				continue // quick tier: a quarter of the 512 configurations (rotating with the seed), plus the extremes
 			}
-			for shape := 0; shape < 3; shape++ {
+			for shape := 0; shape < 4; shape++ {
+				if shape == 3 && n%16 != 3 {
+					continue // Close while suspended: a few configurations are enough (it costs a watchdog timeout when it hangs)
+				}
 				if err := session(r, rng, fmt.Sprintf("s-%d-%d-%d", sub, dm, shape), uint32(sub), dm == 1, shape, []int{-1, 0, 3, 6}[n%4]); err != nil {
 					return err
 				}
@@ -168,7 +198,7 @@ func run(r *hx.Run) error {
 			}
 		}
 	}
-	r.Note("configurations", n/3)
+	r.Note("sessions", n)
 	if r.Thorough {
 		r.Note("exhaustive", true)
 	}
